@@ -3,6 +3,7 @@ import MTfitVerif.Model.LogDomain
 import MTfitVerif.Model.Evidence
 import MTfitVerif.Model.Polarity
 import MTfitVerif.Model.RatioPdf
+import MTfitVerif.Model.Forward
 /- dispatch table of the executable model -/
 namespace MTfitVerif.Driver
 open MTfitVerif Proto
@@ -110,7 +111,88 @@ def opArLnPdf : P String := do
       RatioPdf.coefC ax ay (RatioPdf.errFix s.px * ax) (RatioPdf.errFix s.py * ay))
   pure (outLPs out.flatten ++ " " ++ outFs kappa.flatten)
 
+/-- `stationangles <phase> <radians 0/1> n (az toa)×n` → `n×6` coefficients -/
+def opStationAngles : P String := do
+  let ph ← tok; let rad ← bool; let n ← nat
+  let pts ← many n (do let a ← flt; let t ← flt; pure (a, t)); done
+  match StationAngles.parsePhase ph with
+  | none => pure "err:phase"
+  | some p =>
+    let rows := pts.map fun (a, t) =>
+      if rad then StationAngles.coeffs p a t else StationAngles.coeffsDeg p a t
+    pure (outFs rows.flatten)
+
+/-- data dictionary: `ntypes (key nrows nm ne hasIpp (name az toa m[nm] e[ne] [ipp])×nrows)×ntypes` -/
+def pData : P (List (Matrices.DataType Float)) := do
+  let nt ← nat
+  many nt (do
+    let key ← tok; let nr ← nat; let nm ← nat; let ne ← nat; let hasIpp ← bool
+    let rows ← many nr (do
+      let name ← nat; let az ← flt; let toa ← flt
+      let m ← flts nm; let e ← flts ne
+      let ipp ← if hasIpp then (do let v ← flt; pure (some v)) else pure none
+      pure ({ name := name, az := az, toa := toa, measured := m, error := e, ipp := ipp } : Matrices.Row Float))
+    pure ({ key := key, rows := rows } : Matrices.DataType Float))
+
+/-- location samples: `0` or `1 nnames names… nsamples (az toa)×nnames ×nsamples` -/
+def pLoc : P (Option (Matrices.Loc Float)) := do
+  let has ← bool
+  if !has then pure none
+  else
+    let nn ← nat
+    let names ← many nn nat
+    let nsamp ← nat
+    let samples ← many nsamp (many nn (do let a ← flt; let t ← flt; pure (a, t)))
+    pure (some { names := names, samples := samples })
+
+def outCoeffs (cs : List (List Float)) : String := outFs cs.flatten
+
+def opPolMatrix : P String := do
+  let data ← pData; let loc ← pLoc; done
+  match Matrices.polarityMatrix data loc with
+  | none => pure "err:phase"
+  | some sts =>
+    pure (s!"{sts.length} " ++ " ".intercalate (sts.map fun s =>
+      s!"{s.coeffs.length} " ++ outFs [s.sigma, s.w] ++ " " ++ outCoeffs s.coeffs))
+
+def opPolProbMatrix : P String := do
+  let data ← pData; let loc ← pLoc; done
+  match Matrices.polarityProbabilityMatrix data loc with
+  | none => pure "err:phase"
+  | some sts =>
+    pure (s!"{sts.length} " ++ " ".intercalate (sts.map fun s =>
+      s!"{s.coeffs.length} " ++ outFs [s.pp, s.pn, s.w] ++ " " ++ outCoeffs s.coeffs))
+
+def opArMatrix : P String := do
+  let data ← pData; let loc ← pLoc; done
+  match Matrices.amplitudeRatioMatrix data loc with
+  | none => pure "err:phase"
+  | some sts =>
+    pure (s!"{sts.length} " ++ " ".intercalate (sts.map fun s =>
+      s!"{s.cx.length} " ++ outFs [s.ratio, s.px, s.py] ++ " " ++ outCoeffs s.cx ++ " " ++ outCoeffs s.cy))
+
+/-- `forward <data> <loc> hasW [nw w…] marginalise returnZero nmt mts…`
+    → `nkept idx… nrows ncols values… n` -/
+def opForward : P String := do
+  let data ← pData; let loc ← pLoc
+  let hasW ← bool
+  let ws ← if hasW then (do let n ← nat; let w ← flts n; pure (some w)) else pure none
+  let marg ← bool; let rz ← bool
+  let nm ← nat; let mts ← vec6s nm; done
+  match Forward.dataOf data loc ws with
+  | none => pure "err:phase"
+  | some d =>
+    let (idx, rows, n) := Forward.run d marg rz mts
+    let ncols := (rows.headD []).length
+    pure (s!"{idx.length} " ++ " ".intercalate (idx.map toString) ++ s!" {rows.length} {ncols} "
+      ++ outLPs rows.flatten ++ s!" {n}")
+
 def table : List (String × P String) := [
+  ("stationangles", opStationAngles),
+  ("polmatrix", opPolMatrix),
+  ("polprobmatrix", opPolProbMatrix),
+  ("armatrix", opArMatrix),
+  ("forward", opForward),
   ("ratiopdf", opRatioPdf),
   ("arpdf", opArPdf),
   ("arlnpdf", opArLnPdf),
